@@ -439,6 +439,92 @@ def two_recipients(alg_i: int, alg2_i: int, enc_i: int, pt: bytes, aad: Optional
     return len(gens) == n_ecdh and len({g["value"] for g in gens}) == n_ecdh
 
 
+def single_key_mixed(alg_i: int, alg2_i: int, curve2_i: int, which: int) -> bool:
+    """
+    PRE: 0 <= alg_i < 17 and 0 <= alg2_i < 17 and 0 <= curve2_i < 6 and 0 <= which <= 1
+    POST: _
+    """
+    # general JSON for two recipients of mixed algorithms / key types / curves; ONE of them decrypts with only its own key
+    # (registry with verify_all_recipients=False): the other recipient's entry must be skipped, whatever it contains
+    rt.tick()
+    env = ice.Env(False)
+    alg, alg2 = ALGS[alg_i], ALGS[alg2_i]
+    encname, ivbits, cekbits, kind = ENCS[0]
+    keys = [key_for(alg, cekbits, 0, "s0"), key_for(alg2, cekbits, curve2_i, "s1")]
+    reg = JWERegistry(algorithms=ALL_NAMES, verify_all_recipients=False)
+    pt = b"two-recipient-plaintext"
+    with env.installed(patches()):
+        try:
+            obj = GeneralJSONEncryption({"enc": encname}, pt)
+            obj.add_recipient({"alg": alg}, keys[0])
+            obj.add_recipient({"alg": alg2}, keys[1])
+            tok = jwe.encrypt_json(obj, None, registry=reg)
+        except ice.HarnessError:
+            raise
+        except Exception as e:  # noqa
+            return forbidden(alg, kind, 2, alg2) is not None and isinstance(e, (ConflictAlgorithmError, InvalidEncryptionAlgorithmError))
+        if forbidden(alg, kind, 2, alg2) is not None:
+            return False
+        try:
+            out = jwe.decrypt_json(tok, keys[which], registry=reg)
+        except ice.HarnessError:
+            raise
+        except Exception:  # noqa
+            return rt.why("single_key_mixed#decrypt")
+    return out.plaintext == pt
+
+
+def replay_single_key_mixed(alg_i, alg2_i, curve2_i, which):
+    import warnings
+    warnings.simplefilter("ignore")
+    from vlib import refjose as R
+    from joserfc.jwk import JWKRegistry
+    alg, alg2 = ALGS[alg_i], ALGS[alg2_i]
+    encname, ivbits, cekbits, kind = ENCS[0]
+
+    def real_key(a, crv, kid):
+        if a.startswith("RSA"):
+            j = R.test_key("RSA2048")
+        elif a == "dir":
+            j = R.test_key("oct%d" % (cekbits // 8))
+        elif a.startswith("ECDH"):
+            j = R.test_key(crv)
+        elif a.startswith("PBES2"):
+            j = R.test_key("oct24")
+        else:
+            j = R.test_key("oct%d" % (int(a[1:4]) // 8))
+        return dict(j, kid=kid)
+    jks = [real_key(alg, "P-256", "s0"), real_key(alg2, CURVES[curve2_i], "s1")]
+    keys = [JWKRegistry.import_key(j) for j in jks]
+    reg = JWERegistry(algorithms=ALL_NAMES, verify_all_recipients=False)
+    pt = b"two-recipient-plaintext"
+    obj = GeneralJSONEncryption({"enc": encname}, pt)
+    obj.add_recipient({"alg": alg}, keys[0])
+    obj.add_recipient({"alg": alg2}, keys[1])
+    try:
+        tok = jwe.encrypt_json(obj, None, registry=reg)
+    except Exception as e:  # noqa
+        ok = forbidden(alg, kind, 2, alg2) is not None
+        return {"violated": not ok, "key": "c04-single-key", "detail": "encryption for (%s, %s) failed: %r" % (alg, alg2, e)}
+    # the independent implementation decrypts the token with that recipient's key alone
+    try:
+        def only_mine(merged):
+            # (the independent implementation tries its key only on the entry whose algorithm / key type it can serve)
+            want = alg if which == 0 else alg2
+            return jks[which] if merged.get("alg") == want and (merged.get("epk", {}).get("kty", jks[which]["kty"]) == jks[which]["kty"]) else None
+        ref = R.json_decrypt(tok, only_mine, any_recipient=True)[0]
+    except Exception as e:  # noqa
+        ref = "reference failed: %r" % (e,)
+    try:
+        out = jwe.decrypt_json(tok, keys[which], registry=reg)
+        bad = out.plaintext != pt
+        got = out.plaintext
+    except Exception as e:  # noqa
+        bad, got = True, "%s: %s" % (type(e).__name__, e)
+    return {"violated": bool(bad and ref == pt), "key": "c04-single-key", "detail": "general JSON for recipients (%s, %s key) and (%s, %s key); recipient %d decrypts with "
+            "its own key and verify_all_recipients=False -> %r (independent implementation: %r)" % (alg, jks[0]["kty"], alg2, jks[1].get("crv", jks[1]["kty"]), which, got, ref)}
+
+
 def two_messages(alg_i: int, enc_i: int, curve_i: int, ser: int) -> bool:
     """
     PRE: 0 <= alg_i < 21 and enc_i in ENC_SET and curve_i in CURVE_SET and 0 <= ser <= 2
@@ -504,6 +590,8 @@ def replay(func, call):
         pt, aad, func = b"pt", (b"ad" if ser else None), "roundtrip"
     elif func == "roundtrip":
         alg_i, enc_i, curve_i, ser, has_zip, pt, aad, apu, hdr_where, keyset, pick = args
+    elif func == "single_key_mixed":
+        return replay_single_key_mixed(*args)
     elif func == "two_recipients":
         alg_i, alg2_i, enc_i, pt, aad = args
         ser, n_rec, hdr_where = 2, 2, 2
